@@ -296,6 +296,7 @@ structure ExeReq where
   workdir : Bool := false
   cmdArgs : List Str            -- `es.cmd_args` (exe ++ args)
   envVars : List (Str × Str) := []   -- `env.get_env({})` when `env and env.varnames`
+  envUnset : Bool := false      -- `env.unset_vars` is non-empty
   canUseEnv : Bool := true      -- `env.can_use_env`
   sepIsSpace : Bool := true
   forceSerialize : Bool := false
@@ -319,7 +320,7 @@ def reasons (r : ExeReq) : List Reason :=
   (if r.extraPaths then [.path] else []) ++ (if r.exeWrapper then [.wrapper] else []) ++
   (if r.workdir then [.workdir] else []) ++
   (if r.cmdArgs.any (·.contains '\n') then [.newlines] else []) ++
-  (if r.envVars ≠ [] then
+  (if r.envVars ≠ [] ∨ r.envUnset = true then
      [.env] ++ (if r.envVars.any (·.2.contains '\n') then [.envNewlines] else [])
    else []) ++
   (if !r.sepIsSpace then [.separator] else [])
@@ -329,7 +330,9 @@ def asMesonExeCmdline (r : ExeReq) : Wrapped :=
   let canUseEnv := r.envVars ≠ [] && r.canUseEnv && !r.forceSerialize
   let force := r.forceSerialize || rs ≠ []
   -- `reasons == ['to set env']` is evaluated after capture/feed were appended
-  if canUseEnv && rs = [.env] && r.capture.isNone && r.feed.isNone && r.haveEnvProgram then
+  -- env(1) would take a program word with `=` in it for one more assignment: such a command is serialised
+  if canUseEnv && rs = [.env] && r.capture.isNone && r.feed.isNone && r.haveEnvProgram &&
+      !(r.cmdArgs.headD []).contains '=' then
     .envPrefix (['e', 'n', 'v'] :: r.envVars.map (fun kv => kv.1 ++ '=' :: kv.2) ++ r.cmdArgs)
   else if !force then
     if r.capture.isNone && r.feed.isNone then .direct r.cmdArgs
